@@ -20,6 +20,7 @@ CONSTANTS
   A1 = a1
   A2 = a2
   ByMac = TRUE
+  RacyStart = FALSE
   MaxLoops = 1
   MaxDepth = 0
   Bounded = FALSE
